@@ -55,12 +55,20 @@ def label_clusters(pairs):
     return sorted(sorted(v) for v in d.values())
 
 
+def _lab(a):
+    """canonical text of a node label: str() as before, but a tuple / a Python or NumPy integer keep their kind ((…) / i:…), so that (a, b) is not
+    the text of a list and 101 is not '101'"""
+    if isinstance(a, tuple):
+        return 'tuple:' + repr(tuple(a))
+    return str(a)
+
+
 def frame_pairs(df):
     """(label, cluster id) rows of the DataFrame returned by graph_clustering."""
     if not isinstance(df, pd.DataFrame) or 'cluster' not in df.columns or len(df.columns) < 2:
         raise ValueError('not a (label, cluster) table: %r' % (df,))
     labcol = [c for c in df.columns if c != 'cluster'][0]
-    return [(str(a), int(c)) for a, c in zip(df[labcol].tolist(), df['cluster'].tolist())]
+    return [(_lab(a), int(c)) for a, c in zip(df[labcol].tolist(), df['cluster'].tolist())]
 
 
 def edges_of(adj):
@@ -186,7 +194,7 @@ def check_cc(ctx, n, adj, kind, labels, desc, seqs=None, engine=None, k=None, nk
     """returns True when implementation and model agree. nkind: container of the node labels (None: the older parts' rule)."""
     raw = kind == 'raw'
     exp_pairs = ctx.oracle.run([('api_graph_cc', [n, edges_of(adj)])])[0]
-    expected = label_clusters([(str(labels[u]), c) for u, c in exp_pairs])
+    expected = label_clusters([(_lab(labels[u]), c) for u, c in exp_pairs])
     got = cc_outcome(adj, kind, labels, nkind)
     if got == ('ok', expected):
         return True
@@ -786,7 +794,7 @@ def edge_form(rng, und, form, nself=()):
     return adj
 
 
-LABEL_KINDS = ['str', 'int_shift', 'int_perm', 'dup', 'float']
+LABEL_KINDS = ['str', 'int_shift', 'int_perm', 'dup', 'float', 'pair']
 
 
 def labels_of(lkind, n):
@@ -798,6 +806,10 @@ def labels_of(lkind, n):
         return ['CASS' + 'AFY'[i % 3] for i in range(n)]
     if lkind == 'float':
         return [0.5 + i for i in range(n)]
+    if lkind == 'pair':               # paired-chain clonotypes as labels: tuples (alpha, beta), what list(zip(cdr3a, cdr3b)) gives
+        return [('CAV%d' % (i % 3), 'CASS%d' % i) for i in range(n)]
+    if lkind == 'int_and_str':        # 101 and '101' are different labels
+        return [(100 + i // 2) if i % 2 == 0 else str(100 + i // 2) for i in range(n)]
     return ['s%d' % i for i in range(n)]
 
 
@@ -836,6 +848,8 @@ def cc_input_kinds(ctx, nrandom):
         lkind = LABEL_KINDS[(i // 5 + i // 3) % len(LABEL_KINDS)]
         if nkind == 'categorical' and lkind == 'dup':
             lkind = 'str'
+        if lkind == 'pair' and nkind not in ('list', 'tuple', 'series', 'series_perm', 'series_str', 'series_dupidx', 'series_dupidx3'):
+            nkind = ['list', 'series', 'tuple', 'series_perm'][i % 4]         # tuples as elements: containers that keep them one label each
         labels = labels_of(lkind, n)
         ctx.count('cc:adj-as-' + akind)
         ctx.count('cc:nodes-as-' + nkind)
@@ -846,7 +860,7 @@ def cc_input_kinds(ctx, nrandom):
         if mine != sorted(sorted(u for u, c in exp_pairs if c == c0) for c0 in set(c for _, c in exp_pairs)):
             ctx.violation('correspondence', 'harness: union-find clusters %s differ from api_graph_cc %s on n=%d, %s' % (mine, exp_pairs, n, adj),
                           dict(part='cc', n=n, adj=adj, kind='list', labels=labels), site='harness')
-        expected = label_clusters([(str(labels[u]), c) for u, c in exp_pairs])
+        expected = label_clusters([(_lab(labels[u]), c) for u, c in exp_pairs])
         if cc_outcome(adj, akind, labels, nkind) == ('ok', expected):
             continue
         nbad += 1
@@ -978,7 +992,7 @@ def check_cc_refill(ctx, rounds, desc):
         arr[:] = np.array(adj, dtype=np.int64).reshape(m, 3)
         labs[:] = labels
         exp_pairs = ctx.oracle.run([('api_graph_cc', [n, edges_of(adj)])])[0]
-        expected = label_clusters([(str(labels[u]), c) for u, c in exp_pairs])
+        expected = label_clusters([(_lab(labels[u]), c) for u, c in exp_pairs])
         from pyrepseq.clustering import graph_clustering
         g = call_impl(lambda: graph_clustering(arr, labs, 'cc'))
         try:
